@@ -1,11 +1,11 @@
 (* ChunkedProofs.v — proofs about ChunkedModel.v (TeChunkedParser and the callers' loop).
-   Layout: (1) Tokenizer primitives under extension of the buffer; (2) quoted strings, one extension,
-   the extension loop: decided outcomes are stable, the checkpoint is a restart point; (3)
+   Layout: (1) Tokenizer primitives under extension of the buffer; (2) quoted strings; (3) one extension and
+   the extension loop: decided outcomes are stable, the checkpoint is a restart point; (4)
    parseChunkMetadataSuffix: stability + conditional commutation (the unconditional one is false: see
-   the refuted theorem); (4) chunk-size; (5) headersEnd on trailer sections; (6) per-stage steps;
-   (7) the invariant of one parse() call and of the callers' loop over any (segment, capacity)
-   schedule; (8) RFC character classes and the chunk-ext grammar satisfy what (7) needs;
-   (9) the theorems about RFC 9112 chunked bodies; (10) rejections and the segmentation finding. *)
+   ext_trailing_bws_refuted); (5) chunk-size; (6) headersEnd on trailer sections; (7) per-stage steps;
+   (8) the invariant of one parse() call and of the callers' loop over any (segment, capacity)
+   schedule; (9) RFC character classes and the chunk-ext grammar satisfy what (8) needs;
+   (10) the theorems about RFC 9112 chunked bodies; (11) rejections and the segmentation finding. *)
 Require Import SquidV.Bytes SquidV.TokModel SquidV.TokProofs SquidV.Int64Proofs SquidV.ChunkedModel.
 Require Import SquidV.gen.CharSets_gen.
 Require Import ZifyBool ZifyN ZifyNat.
@@ -1524,20 +1524,20 @@ Proof. repeat split; reflexivity. Qed.
    *( *qdtext quoted-pair ) *qdtext : a list of (qdtext run, escaped octet) and a final run *)
 Definition qseg := (bytes * N)%type.
 Definition enc_qseg (s : qseg) : bytes := fst s ++ [92; snd s].
-Definition enc_qs (segs : list qseg) (last : bytes) : bytes := concat (map enc_qseg segs) ++ last.
+Definition enc_qs (qsegs : list qseg) (last : bytes) : bytes := concat (map enc_qseg qsegs) ++ last.
 Definition qseg_ok (s : qseg) : Prop := forallb rfc_qdtext (fst s) = true /\ rfc_qpair (snd s) = true.
 
 Inductive extval :=
 | VNone
 | VTok (w1 w2 t : bytes)                         (* BWS "=" BWS token *)
-| VQuoted (w1 w2 : bytes) (segs : list qseg) (last : bytes).   (* BWS "=" BWS quoted-string *)
+| VQuoted (w1 w2 : bytes) (qsegs : list qseg) (last : bytes).   (* BWS "=" BWS quoted-string *)
 Record ext := { x_w1 : bytes; x_w2 : bytes; x_name : bytes; x_val : extval }.
 
 Definition enc_val (v : extval) : bytes :=
   match v with
   | VNone => []
   | VTok w1 w2 t => w1 ++ [61] ++ w2 ++ t
-  | VQuoted w1 w2 segs last => w1 ++ [61] ++ w2 ++ [34] ++ enc_qs segs last ++ [34]
+  | VQuoted w1 w2 qsegs last => w1 ++ [61] ++ w2 ++ [34] ++ enc_qs qsegs last ++ [34]
   end.
 (* BWS ";" BWS chunk-ext-name [ BWS "=" BWS chunk-ext-val ] *)
 Definition enc_ext (e : ext) : bytes := x_w1 e ++ [59] ++ x_w2 e ++ x_name e ++ enc_val (x_val e).
@@ -1549,7 +1549,7 @@ Definition val_ok (v : extval) : Prop :=
   match v with
   | VNone => True
   | VTok w1 w2 t => bws_ok w1 /\ bws_ok w2 /\ token_ok t
-  | VQuoted w1 w2 segs last => bws_ok w1 /\ bws_ok w2 /\ Forall qseg_ok segs /\ forallb rfc_qdtext last = true
+  | VQuoted w1 w2 qsegs last => bws_ok w1 /\ bws_ok w2 /\ Forall qseg_ok qsegs /\ forallb rfc_qdtext last = true
   end.
 Definition ext_ok (e : ext) : Prop :=
   bws_ok (x_w1 e) /\ bws_ok (x_w2 e) /\ token_ok (x_name e) /\ val_ok (x_val e) /\ lenN (enc_ext e) < npos.
@@ -1615,13 +1615,13 @@ Proof.
 Qed.
 
 (* ---------- quoted strings ---------- *)
-Lemma qs_valid Z : forall segs last acc k, Forall qseg_ok segs -> forallb rfc_qdtext last = true ->
-  lenN (enc_qs segs last) < npos -> (length segs < k)%nat ->
-  exists v, qs_loop k acc (enc_qs segs last ++ 34 :: Z) = Some (Ok (v, Z)).
+Lemma qs_valid Z : forall qsegs last acc k, Forall qseg_ok qsegs -> forallb rfc_qdtext last = true ->
+  lenN (enc_qs qsegs last) < npos -> (length qsegs < k)%nat ->
+  exists v, qs_loop k acc (enc_qs qsegs last ++ 34 :: Z) = Some (Ok (v, Z)).
 Proof.
   assert (Hq34 : qdtext11 34 = false) by (vm_compute; reflexivity).
   assert (Hq92 : qdtext11 92 = false) by (vm_compute; reflexivity).
-  induction segs as [|[run c] segs IH]; intros last acc k Hsegs Hlast Hlen Hk; (destruct k as [|k]; [cbn in Hk; lia|]).
+  induction qsegs as [|[run c] qsegs IH]; intros last acc k Hsegs Hlast Hlen Hk; (destruct k as [|k]; [cbn in Hk; lia|]).
   - unfold enc_qs in *. cbn [map concat app] in *. rewrite qs_step_eq.
     assert (Hb : exists y r, last ++ 34 :: Z = y :: r) by (destruct last; cbn; eauto).
     destruct Hb as (y0 & r0 & Hb). rewrite Hb. cbv zeta. rewrite <- Hb.
@@ -1635,8 +1635,8 @@ Proof.
   - inversion Hsegs as [|? ? [Hrun Hc] Hsegs']; subst. cbn [fst snd] in *.
     unfold enc_qs in *. cbn [map concat] in *. unfold enc_qseg at 1. cbn [fst snd].
     unfold enc_qseg in Hlen at 1. cbn [fst snd] in Hlen.
-    set (REST := concat (map enc_qseg segs) ++ last) in *.
-    replace (((run ++ [92; c]) ++ concat (map enc_qseg segs)) ++ last) with (run ++ 92 :: c :: REST) in *
+    set (REST := concat (map enc_qseg qsegs) ++ last) in *.
+    replace (((run ++ [92; c]) ++ concat (map enc_qseg qsegs)) ++ last) with (run ++ 92 :: c :: REST) in *
       by (unfold REST; rewrite <- !app_assoc; reflexivity).
     rewrite <- app_assoc. cbn [app]. rewrite qs_step_eq.
     assert (Hb : exists y r, run ++ 92 :: c :: REST ++ 34 :: Z = y :: r) by (destruct run; cbn; eauto).
@@ -1679,7 +1679,7 @@ Proof.
   assert (Hnl : lenN (n0 :: name') < npos) by lia.
   (* the name is followed by a non-tchar *)
   assert (Hafter : exists y r, enc_val (x_val e) ++ Z = y :: r /\ rfc_tchar y = false).
-  { destruct (x_val e) as [|w1 w2 t|w1 w2 segs last]; cbn [enc_val app].
+  { destruct (x_val e) as [|w1 w2 t|w1 w2 qsegs last]; cbn [enc_val app].
     - apply nxt_head. exact HZ.
     - destruct Hval as (Hv1 & _). destruct w1 as [|c w1']; cbn [app]; [eexists _, _; split; reflexivity|].
       eexists _, _; split; [reflexivity|]. unfold bws_ok in Hv1. cbn [forallb] in Hv1. apply andb_prop in Hv1 as [Hc _].
@@ -1692,7 +1692,7 @@ Proof.
   rewrite Hyr. rewrite (prefix_run cs_TCHAR (n0 :: name') y r); [|discriminate| |now rewrite tchar_eq|exact Hnl].
   2:{ eapply forallb_imp; [|exact Hnall]. intros x Hx. now rewrite tchar_eq. }
   cbn [is_nil]. rewrite <- Hyr.
-  destruct (x_val e) as [|w1 w2 t|w1 w2 segs last] eqn:Ev; cbn [enc_val app] in *.
+  destruct (x_val e) as [|w1 w2 t|w1 w2 qsegs last] eqn:Ev; cbn [enc_val app] in *.
   - (* no value *)
     destruct (nxt_bws relaxed Z HZ) as (z & rz & Hb & Hz61 & _). unfold parse_bws in Hb. rewrite Hb.
     cbn [tok_skipChar]. replace (z =? 61) with false by lia. cbn [negb fst snd]. reflexivity.
@@ -1712,11 +1712,11 @@ Proof.
     rewrite <- ?app_assoc. cbn [app]. rewrite (bws_run _ w2 34 _ (bws_ws relaxed _ Hv2) F34).
     unfold token_or_qs. cbn [tok_skipChar]. change (34 =? 34) with true. cbv iota.
     unfold quoted_suffix. rewrite <- app_assoc. cbn [app].
-    destruct (qs_valid Z segs last [] (S (length (enc_qs segs last ++ 34 :: Z))) Hsegs Hlast) as [v Hv].
+    destruct (qs_valid Z qsegs last [] (S (length (enc_qs qsegs last ++ 34 :: Z))) Hsegs Hlast) as [v Hv].
     { repeat first [rewrite lenN_app in Hlen | progress cbn [lenN app] in Hlen]. lia. }
     { unfold enc_qs. rewrite !app_length. cbn [length].
-      assert (Hsl : (length segs <= length (concat (map enc_qseg segs)))%nat).
-      { clear. induction segs as [|s segs IH]; cbn [map concat length]; [lia|].
+      assert (Hsl : (length qsegs <= length (concat (map enc_qseg qsegs)))%nat).
+      { clear. induction qsegs as [|s qsegs IH]; cbn [map concat length]; [lia|].
         rewrite app_length. unfold enc_qseg at 1. rewrite app_length. cbn [length]. lia. }
       lia. }
     rewrite Hv. reflexivity.
@@ -1911,4 +1911,187 @@ Proof.
   destruct (dechunk_safe relaxed m Hm [] sched rest Heq') as [(Hs & Ho & used & later & Hsg & Hu)|H]; [|exact H].
   exfalso. rewrite Hsg, Hu in Heq. apply (f_equal (@length N)) in Heq. repeat rewrite app_length in Heq.
   destruct rest; [congruence|]. cbn [length] in Heq. lia.
+Qed.
+
+
+(* ======================= part 11 ======================= *)
+
+(* ================= rejections, for every continuation x of the input ================= *)
+Definition at_size (st : pstate) : Prop := p_stage st = StNone \/ p_stage st = StSz.
+
+Lemma parse_at_size relaxed cap st c x : at_size st ->
+  parse relaxed cap st (c :: x) =
+  match chunk_size (norm_state st) (c :: x) with
+  | Bad e => PThrow e []
+  | Insuf => PThrow ESize []
+  | Ok None => PRet false (norm_state st) (c :: x) []
+  | Ok (Some (st4, t4)) => parse_loop (length (c :: x)) relaxed cap st4 t4 t4 []
+  end.
+Proof.
+  intros Hs. unfold parse. fold (norm_state st).
+  assert (Hn : p_stage (norm_state st) = StSz) by (unfold norm_state; destruct Hs as [H|H]; rewrite H; [reflexivity|exact H]).
+  rewrite parse_loop_eq. rewrite Hn. unfold chunk_part. rewrite Hn. unfold mime_part. rewrite Hn. unfold sz_part. rewrite Hn.
+  cbn [app]. destruct (chunk_size (norm_state st) (c :: x)) as [[[st4 t4]|]| |e]; try reflexivity.
+  unfold fin. rewrite Hn. reflexivity.
+Qed.
+
+Theorem reject_0x relaxed cap st c x : at_size st -> c = 120 \/ c = 88 ->
+  parse relaxed cap st (48 :: c :: x) = PThrow E0x [].
+Proof.
+  intros Hs Hc. rewrite parse_at_size by exact Hs. unfold chunk_size, tok_skip.
+  destruct Hc as [->| ->]; destruct x; reflexivity.
+Qed.
+
+Theorem reject_nonhex relaxed cap st c x : at_size st -> is_hex c = false ->
+  parse relaxed cap st (c :: x) = PThrow ESize [].
+Proof.
+  intros Hs Hc. rewrite parse_at_size by exact Hs. unfold chunk_size.
+  assert (H48 : (c =? 48) = false) by (destruct (c =? 48) eqn:E; [apply N.eqb_eq in E; subst c; discriminate| reflexivity]).
+  assert (Hsk : fst (tok_skip [48; 120] (c :: x)) || fst (tok_skip [48; 88] (c :: x)) = false).
+  { unfold tok_skip. destruct x; cbn [starts_with]; rewrite H48; reflexivity. }
+  rewrite Hsk. rewrite int64_hex.
+  2:{ destruct x; [reflexivity|]. now rewrite H48. }
+  unfold ref_core. cbn [takeN]. change (npos =? 0) with false. cbv iota. cbn [digit_run].
+  rewrite digit_of_hex. unfold is_hex in Hc. destruct (hexval c); [discriminate|]. reflexivity.
+Qed.
+
+(* chunk-size followed by something that is neither BWS, ";" nor CR: missing CRLF *)
+Theorem reject_missing_crlf_after_size relaxed cap st ds v c x :
+  at_size st -> digits_ok ds v -> is_hex c = false -> c <> 120 -> c <> 88 ->
+  ws_chars relaxed c = false -> c <> 59 -> c <> 13 ->
+  parse relaxed cap st (ds ++ c :: x) = PThrow EExtCrlf [].
+Proof.
+  intros Hs Hd Hc Hx1 Hx2 Hws H59 H13.
+  pose proof Hd as (Hne & Hhex & Hv & Hlt & Hlen).
+  destruct ds as [|d0 ds']; [congruence|]. cbn [app]. rewrite parse_at_size by exact Hs.
+  change (d0 :: ds' ++ c :: x) with ((d0 :: ds') ++ c :: x).
+  rewrite (size_full _ (d0 :: ds') c x Hne Hhex ltac:(rewrite Hv; exact Hlt) Hlen Hc Hx1 Hx2).
+  rewrite app_length. cbn [length]. rewrite Nat.add_succ_r. rewrite parse_loop_eq. cbn [p_stage size_state].
+  rewrite meta_eq. unfold parse_strict_bws.
+  assert (Hwsp : cs_WSP c = false).
+  { destruct (cs_WSP c) eqn:E; [|reflexivity]. rewrite (wsp_sub relaxed c E) in Hws. discriminate. }
+  change (c :: x) with ([] ++ c :: x). rewrite (bws_run cs_WSP [] c x eq_refl Hwsp). cbn [app].
+  rewrite exts_unfold. unfold parse_bws. change (c :: x) with ([] ++ c :: x). rewrite (bws_run _ [] c x eq_refl Hws). cbn [app].
+  cbn [tok_skipChar]. replace (c =? 59) with false by lia. cbn [negb fst snd].
+  rewrite skipRequired_crlf_cases. replace (c =? 13) with false by lia. reflexivity.
+Qed.
+
+(* chunk data not followed by CRLF *)
+Theorem reject_missing_crlf_after_data relaxed cap st d c0 c1 x :
+  p_stage st = StChunk -> p_left st = lenN d -> d <> [] -> lenN d <= cap -> ~ (c0 = 13 /\ c1 = 10) ->
+  parse relaxed cap st (d ++ c0 :: c1 :: x) = PThrow EDataCrlf d.
+Proof.
+  intros Hs Hl Hd Hcap Hc. unfold parse.
+  destruct (d ++ c0 :: c1 :: x) as [|b0 b'] eqn:Eb; [destruct d; discriminate|]. rewrite <- Eb. rewrite Hs.
+  rewrite parse_loop_eq. rewrite Hs. unfold chunk_part. rewrite Hs. cbn [app lenN]. rewrite N.sub_0_r.
+  unfold chunk_body. rewrite Hl.
+  assert (Hpos : (0 <? lenN d) = true) by (destruct d; [congruence| cbn [lenN]; lia]). rewrite Hpos.
+  assert (Hmin : N.min (N.min (lenN d) (lenN (d ++ c0 :: c1 :: x))) cap = lenN d) by (rewrite lenN_app; lia).
+  rewrite Hmin. cbn [p_left]. rewrite N.sub_diag. change (0 =? 0) with true. cbv iota.
+  rewrite takeN_app_exact, dropN_app_exact. unfold chunk_end. rewrite skipRequired_crlf_cases.
+  destruct (c0 =? 13) eqn:E0; [|reflexivity]. destruct (c1 =? 10) eqn:E1; [|reflexivity].
+  exfalso. apply Hc. split; [apply N.eqb_eq; exact E0| apply N.eqb_eq; exact E1].
+Qed.
+
+(* ================= the finding: acceptance of `;name=value BWS CRLF` depends on segmentation ================= *)
+Definition finding_enc : bytes :=   (* "5;a=b \r\nhello\r\n0\r\n\r\n" *)
+  [53; 59; 97; 61; 98; 32; 13; 10; 104; 101; 108; 108; 111; 13; 10; 48; 13; 10; 13; 10].
+Definition finding_whole : list (bytes * N) := [(finding_enc, 100)].
+Definition finding_split : list (bytes * N) := [(takeN 6 finding_enc, 100); (dropN 6 finding_enc, 100)].
+
+Theorem ext_trailing_bws_refuted :
+  exists enc s_whole s_split,
+    segs s_whole = enc /\ segs s_split = enc /\
+    (forall m tail, message_ok m -> enc <> encode m ++ tail) /\       (* not in the grammar *)
+    r_status (run_chunked false s_whole) = RThrow EExtCrlf /\           (* rejected when read at once *)
+    r_status (run_chunked false s_split) = RDone /\                     (* accepted when a read ends after the BWS *)
+    r_status (run_chunked true s_split) = RDone.
+Proof.
+  exists finding_enc, finding_whole, finding_split.
+  assert (Hw : r_status (run_chunked false finding_whole) = RThrow EExtCrlf) by (vm_compute; reflexivity).
+  split; [vm_compute; reflexivity|]. split; [vm_compute; reflexivity|]. split.
+  - intros m tail Hm Heq.
+    destruct (dechunk_safe false m Hm tail finding_whole [] ltac:(rewrite app_nil_r; exact Heq)) as [(Hs & _)|(Hs & _)]; congruence.
+  - split; [exact Hw|]. split; vm_compute; reflexivity.
+Qed.
+
+(* the partial statement that does hold: read at once, BWS between an extension and CRLF is rejected *)
+Theorem reject_ext_trailing_bws_unsplit relaxed st name w x :
+  p_stage st = StExt -> token_ok name -> lenN name + 1 < npos -> w <> [] -> bws_ok w ->
+  meta_suffix relaxed st (59 :: name ++ w ++ 13 :: 10 :: x) (59 :: name ++ w ++ 13 :: 10 :: x) = SThrow EExtCrlf [].
+Proof.
+  intros Hs Hname Hnl Hwne Hw. destruct (ws_facts relaxed) as (F59 & F61 & F34 & F10 & F13).
+  assert (Hw59 : cs_WSP 59 = false) by (vm_compute; reflexivity).
+  rewrite meta_eq. unfold parse_strict_bws.
+  set (buf := 59 :: name ++ w ++ 13 :: 10 :: x).
+  assert (Hb : parse_bws_ cs_WSP buf = Ok buf) by (unfold buf; apply (bws_run cs_WSP [] 59 _ eq_refl Hw59)).
+  rewrite Hb.
+  (* Z = w ++ CRLF x is a legal follow-up of the name, so the extension is complete and valueless *)
+  set (Z := w ++ 13 :: 10 :: x).
+  assert (HZ : nxt Z) by (exists w, 13, (10 :: x); split; [reflexivity|]; split; [exact Hw|]; right; eauto).
+  set (e := {| x_w1 := []; x_w2 := []; x_name := name; x_val := VNone |}).
+  assert (He : one_ext relaxed (name ++ Z) = Some (Ok Z)).
+  { pose proof (one_ext_valid relaxed e Z) as H. cbn [x_w2 x_name x_val e enc_val app] in H. apply H; [|exact HZ].
+    unfold ext_ok, e. cbn [x_w1 x_w2 x_name x_val]. repeat split; try reflexivity; try apply Hname.
+    unfold enc_ext. cbn [x_w1 x_w2 x_name x_val enc_val app]. rewrite app_nil_r. cbn [lenN]. unfold npos in *. lia. }
+  rewrite exts_unfold. unfold parse_bws.
+  assert (Hb2 : parse_bws_ (ws_chars relaxed) buf = Ok buf) by (unfold buf; apply (bws_run _ [] 59 _ eq_refl F59)).
+  assert (Hsk : tok_skipChar 59 buf = (true, name ++ Z)) by reflexivity.
+  rewrite Hb2, Hsk. cbn [negb fst snd]. rewrite He.
+  (* next iteration: BWS, then CR/LF instead of ";" => the loop returns the position BEFORE the BWS *)
+  rewrite exts_unfold.
+  destruct (nxt_bws relaxed Z HZ) as (z & rz & Hbz & Hz61 & [[Hz59 (w' & HZw & Hw')]|[Hz59 _]]).
+  - exfalso. subst z. unfold Z in HZw.
+    (* w ++ CR.. = w' ++ ";".. with both w, w' BWS: impossible *)
+    revert w' HZw Hw'. clear -Hw. induction w as [|c w IH]; intros w' HZw Hw'.
+    + destruct w' as [|c' w'']; cbn [app] in HZw; [discriminate|]. injection HZw as <- _.
+      unfold bws_ok in Hw'. cbn [forallb] in Hw'. discriminate.
+    + destruct w' as [|c' w'']; cbn [app] in HZw.
+      * injection HZw as -> _. unfold bws_ok in Hw. cbn [forallb] in Hw. discriminate.
+      * injection HZw as <- HZw. unfold bws_ok in Hw, Hw'. cbn [forallb] in Hw, Hw'.
+        apply andb_prop in Hw as [_ Hw]. apply andb_prop in Hw' as [_ Hw']. eapply IH; eassumption.
+  - rewrite Hbz. cbn [tok_skipChar]. replace (z =? 59) with false by lia. cbn [negb fst snd].
+    rewrite skipRequired_crlf_cases. unfold Z. destruct w as [|c w']; [congruence|]. cbn [app].
+    unfold bws_ok in Hw. cbn [forallb] in Hw. apply andb_prop in Hw as [Hc _].
+    replace (c =? 13) with false; [reflexivity|]. unfold rfc_bws in Hc. lia.
+Qed.
+
+(* chunk-size that does not fit in 63 bits, whatever follows *)
+Lemma digit_run_hex_app ds y : forallb is_hex ds = true ->
+  digit_run 16 (ds ++ y) = map (fun c => match hexval c with Some d => Z.of_N d | None => 0%Z end) ds ++ digit_run 16 y.
+Proof.
+  intros Hd. induction ds as [|c ds IH]; cbn [app digit_run map forallb] in *; [reflexivity|].
+  apply andb_prop in Hd as [Hc Hd]. rewrite digit_of_hex. unfold is_hex in Hc.
+  destruct (hexval c); [|discriminate]. cbn [option_map]. rewrite (IH Hd). reflexivity.
+Qed.
+
+Theorem reject_size_overflow relaxed cap st ds x :
+  at_size st -> forallb is_hex ds = true -> two63N <= hex_value 0 ds -> lenN ds <= npos ->
+  parse relaxed cap st (ds ++ x) = PThrow ESize [].
+Proof.
+  intros Hs Hhex Hv Hlen.
+  destruct ds as [|d0 [|d1 ds']].
+  { exfalso. cbn in Hv. unfold two63N in Hv. lia. }
+  { exfalso. cbn [hex_value] in Hv. unfold hexval in Hv. unfold two63N in Hv.
+    destruct ((48 <=? d0) && (d0 <=? 57)) eqn:E1; [lia|]. destruct ((97 <=? d0) && (d0 <=? 102)) eqn:E2; [lia|].
+    destruct ((65 <=? d0) && (d0 <=? 70)) eqn:E3; lia. }
+  cbn [app]. rewrite parse_at_size by exact Hs. change (d0 :: d1 :: ds' ++ x) with ((d0 :: d1 :: ds') ++ x).
+  set (ds := d0 :: d1 :: ds') in *. unfold chunk_size.
+  assert (H0 : no0x (ds ++ x)).
+  { unfold ds. cbn. cbn [forallb] in Hhex. apply andb_prop in Hhex as [_ Hh]. apply andb_prop in Hh as [Hd1 _].
+    split; intros ->; discriminate. }
+  destruct (no0x_skip _ H0) as [Hsk Hi]. rewrite Hsk. rewrite (int64_hex (ds ++ x) Hi).
+  rewrite takeN_app_ge by exact Hlen. unfold ref_core. rewrite (digit_run_hex_app ds _ Hhex).
+  set (A := map (fun c => match hexval c with Some d => Z.of_N d | None => 0%Z end) ds).
+  set (Bd := digit_run 16 (takeN (npos - lenN ds) x)).
+  assert (HA : A <> []) by (unfold A, ds; discriminate).
+  destruct (A ++ Bd) as [|a0 ab] eqn:Eab; [destruct A; [congruence|discriminate]|]. rewrite <- Eab.
+  cbv zeta.
+  assert (Hval : (two63 <= digits_value 16 (A ++ Bd) 0)%Z).
+  { unfold digits_value. rewrite fold_left_app. fold (digits_value 16 A 0). fold (digits_value 16 Bd (digits_value 16 A 0)).
+    pose proof (digits_value_hex ds 0) as HdA. cbn [Z.of_N] in HdA. fold A in HdA.
+    pose proof (digits_value_mono 16 Bd (digits_value 16 A 0) ltac:(lia) ltac:(rewrite HdA; lia) (digit_run_nonneg 16 _)) as Hm.
+    rewrite HdA in *. unfold two63, two63N in *. lia. }
+  replace (digits_value 16 (A ++ Bd) 0 >? two63 - 1)%Z with true by lia.
+  unfold ds. reflexivity.
 Qed.
